@@ -17,6 +17,7 @@ import Driver.CfgDrv
 import Driver.MpiDrv
 import Driver.ElasticDrv
 import Driver.CtxDrv
+import Driver.JoinDrv
 /-! `driver <model>`: reads harness output (cases) on stdin, prints one verdict line per case. -/
 open Driver
 
@@ -41,6 +42,7 @@ def dispatch (model : String) (c : Case) : String :=
   | "mpi" => MpiDrv.runCase c
   | "elastic" => ElasticDrv.runCase c
   | "ctx" => CtxDrv.runCase c
+  | "join" => JoinDrv.runCase c
   | _ => s!"case {c.id} reject 0 unknown-model-{model}"
 
 def main (args : List String) : IO UInt32 := do
